@@ -361,7 +361,7 @@ def build_machine(rec):
             for si in range(n):
                 for _ in range(data.draw(st.integers(2, 7))):
                     c, r = data.draw(st.integers(1, 3)), data.draw(st.integers(1, 3))
-                    cells[f'{si}:{c}:{r}'] = data.draw(st.one_of(st.integers(1, 9), st.integers(1, 9), st.sampled_from([0.5, 'w', True])))
+                    cells[f'{si}:{c}:{r}'] = data.draw(st.one_of(st.integers(1, 9), st.integers(1, 9), st.sampled_from([0.5, 'w', True, 0, False, 0.0])))
             homes = []
             for i in range(data.draw(st.integers(2, 8))):
                 si = data.draw(st.integers(0, n - 1))
@@ -442,7 +442,7 @@ def build_machine(rec):
                     k = f'{data.draw(st.integers(0, len(wb["titles"]) - 1))}:{data.draw(st.integers(1, 12))}:{data.draw(st.integers(4, 14))}'
                 else:
                     k = self._key(data)
-                v = data.draw(value)
+                v = data.draw(st.one_of(value, value, value, st.none()))     # None: the cell is given without a value
                 cur = now.get(k, wb['cells'].get(k))
                 if isinstance(cur, (bool, int)) and cur in (0, 1) and data.draw(st.booleans()):
                     v = int(cur) if isinstance(cur, bool) else bool(cur)     # equal value, other type
